@@ -147,5 +147,33 @@ def solve_all(obligations, timeout_s=10, jobs=None, use_cvc5=True, extra_axioms=
     return out
 
 
+def solve_all_split(obligations, **kw):
+    """solve_all, then a second chance for what did not discharge: a conjunctive goal (also under a leading universal
+    quantifier) is split into its conjuncts, each proved separately — the negated conjunction is a disjunction on which
+    E-matching may saturate early; if every part is proved the obligation is proved (back end `…+split`)"""
+    from .state import Obligation
+    from .symexec import conjuncts
+    res = solve_all(obligations, **kw)
+    retry, parts_of = [], {}
+    for ob in obligations:
+        v = res[ob.name]
+        if v[0] in ('unsat', 'sat', 'error') or ob.kind == 'canary':
+            continue
+        ps = conjuncts(ob.goal)
+        if len(ps) <= 1:
+            continue
+        subs = [Obligation('%s::part%d' % (ob.name, k), ob.hyps, g, ob.kind, ob.fn, ob.note) for k, g in enumerate(ps)]
+        parts_of[ob.name] = [x.name for x in subs]
+        retry.extend(subs)
+    if retry:
+        kw2 = dict(kw); kw2['cross_check'] = False
+        r2 = solve_all(retry, **kw2)
+        for name, subs in parts_of.items():
+            if all(r2[x][0] == 'unsat' for x in subs):
+                secs = round(res[name][2] + sum(r2[x][2] for x in subs), 3)
+                res[name] = ('unsat', sorted({r2[x][1] for x in subs})[0] + '+split', secs, '')
+    return res
+
+
 CROSS = {}
 QHASH = {}        # obligation name -> hash of the exact SMT query text (tells a re-run of an identical query from a changed one)
